@@ -287,7 +287,8 @@ TRANS_COQ = {"OMPDo": "TOMPDo", "OMPParallelDo": "TOMPParallelDo", "OMPTeamsParD
              "OMPLoop": "TOMPLoop", "OMPParallelLoopTrans": "TOMPParallelLoop", "OMPTaskloop": "TOMPTaskloop",
              "ACCLoop": "TACCLoop", "OMPParallel": "TOMPParallel", "OMPSingle": "TOMPSingle",
              "OMPMaster": "TOMPMaster", "OMPTarget": "TOMPTarget", "ACCParallel": "TACCParallel",
-             "ACCKernels": "TACCKernels", "ACCData": "TACCData", "ACCEnterData": "TACCEnterData"}
+             "ACCKernels": "TACCKernels", "ACCData": "TACCData", "ACCEnterData": "TACCEnterData",
+             "ACCRoutine": "TACCRoutine"}
 LOOP_TRANS = ["OMPDo", "OMPParallelDo", "OMPTeamsParDo", "OMPLoop", "OMPParallelLoopTrans", "OMPTaskloop", "ACCLoop"]
 REGION_TRANS = ["OMPParallel", "OMPSingle", "OMPMaster", "OMPTarget", "ACCParallel", "ACCKernels", "ACCData"]
 
@@ -570,6 +571,12 @@ def systematic_histories(tops):
                 out.append((sk, [(x, ("node", (0,)), {"force": True, "collapse": 2})] + top_ops))
         for x in ALL_TRANS:
             out.append((a2, [op_on(x, (0,))] + top_ops + [("ACCEnterData", ("sched", (0,)), {})]))
+    # ACCRoutineTrans marks the routine: orphaned acc loops are then accepted by the writer
+    accr = ("ACCRoutine", ("sched", ()), {})
+    for sk in (b1, ret, a2, (("C",), ("L", (S,)))):
+        out.append((sk, [op_on("ACCLoop", (0,)) if sk[0][0] == "L" else op_on("ACCLoop", (1,)), accr]))
+        out.append((sk, [accr, op_on("ACCLoop", (0,)) if sk[0][0] == "L" else op_on("ACCLoop", (1,)), accr]))
+    out.append((a2, [op_on("ACCLoop", (0, 0)), op_on("ACCLoop", (0,)), accr]))
     return out
 
 
@@ -604,7 +611,8 @@ def targeted_serial_histories():
 B36 = "0123456789abcdefghijklmnopqrstuvwxyz"
 SKL = ["OMPTaskwait", "ACCEnterData", "ACCRoutine"]
 TRANS_ORDER = ["OMPDo", "OMPParallelDo", "OMPTeamsParDo", "OMPLoop", "OMPParallelLoopTrans", "OMPTaskloop", "ACCLoop",
-               "OMPParallel", "OMPSingle", "OMPMaster", "OMPTarget", "ACCParallel", "ACCKernels", "ACCData", "ACCEnterData"]
+               "OMPParallel", "OMPSingle", "OMPMaster", "OMPTarget", "ACCParallel", "ACCKernels", "ACCData", "ACCEnterData",
+               "ACCRoutine"]
 
 
 def d36(n):
